@@ -132,11 +132,14 @@ class Gen:
             if pool:
                 return ['ref', r.choice(pool)]
         if depth >= self.maxdepth or (x < 0.4 and depth > 0):
-            if self.scalars and r.random() < 0.2:
-                return list(r.choice(self.scalars))
+            if self.scalars and r.random() < 0.25:
+                i = r.randrange(len(self.scalars))
+                if r.random() < 0.5:
+                    return list(self.scalars[i])              # an equal but distinct leaf
+                return ['shared', i, list(self.scalars[i])]   # the same leaf object once more
             sc = self.base.scalar()
             self.scalars.append(sc)
-            return sc
+            return sc if r.random() < 0.7 else ['shared', len(self.scalars) - 1, sc]
         cid = self.n
         self.n += 1
         self.open.append(cid)
@@ -322,6 +325,13 @@ def _execute(case):
                     out['probes']['insertion_order_confirmed'] = out['probes'].get('insertion_order_confirmed', 0) + 1
             if v:
                 break
+    # anchors (and the rest of the text) are a function of the document alone
+    if v is None:
+        for hs, a in answers.items():
+            out['probes']['multi_document_streams'] = out['probes'].get('multi_document_streams', 0) + 1
+            if a.get('multidoc'):
+                v = {'class': 'document-text-depends-on-earlier-documents', 'detail': dict(a['multidoc'], hashseed=hs, text=clip(a['texts'][0]))}
+                break
     # re-dump stability
     if v is None:
         reds = {hs: a.get('redump') for hs, a in answers.items()}
@@ -393,6 +403,8 @@ def shrink_recipe(rc):
         for i, (k, x) in enumerate(rc[1]):
             for sx in shrink_recipe(x):
                 yield [t, rc[1][:i] + [[k, sx]] + rc[1][i + 1:], rc[2]]
+    elif t == 'shared':
+        yield rc[2]
     elif t == 'str' and len(rc[1]) > 1:
         yield ['str', 'a']
     elif t not in ('none', 'str'):
